@@ -35,6 +35,7 @@ def matrix_block(M: Arr2, rows: Arr1i, cols: Arr1i) -> Arr2:
 
 @contract("sempler.normal_distribution.NormalDistribution.__init__")
 def nd_init(self: Obj('sempler.normal_distribution.NormalDistribution'), mean: Arr1, covariance: Arr2) -> NoneType:
+    requires(covariance.shape[0] == covariance.shape[1])        # a covariance matrix is square (the constructor only compares lengths)
     raises(ValueError, when=len(mean) != len(covariance))
     modifies(self)
     establishes(p=len(mean), mean=array_of(len(mean), lambda i: mean[i]),
@@ -42,14 +43,14 @@ def nd_init(self: Obj('sempler.normal_distribution.NormalDistribution'), mean: A
     fresh(self.mean, self.covariance)
 
 
-@contract("sempler.normal_distribution.NormalDistribution.marginal")
+@contract("sempler.normal_distribution.NormalDistribution.marginal", self_from_init=True)
 def nd_marginal(self: Obj('sempler.normal_distribution.NormalDistribution', p=Int, mean=Arr1, covariance=Arr2), X: Arr1i) -> Obj('sempler.normal_distribution.NormalDistribution', p=Int, mean=Arr1, covariance=Arr2):
     requires(nd_ok(self), idx_ok(X, self.p))
     ensures(result.p == len(X), same_array(result.mean, sel(self.mean, X)), same_array(result.covariance, block(self.covariance, X, X)))
     fresh(result)
 
 
-@contract("sempler.normal_distribution.NormalDistribution.conditional")
+@contract("sempler.normal_distribution.NormalDistribution.conditional", self_from_init=True)
 def nd_conditional(self: Obj('sempler.normal_distribution.NormalDistribution', p=Int, mean=Arr1, covariance=Arr2), Y: Arr1i, X: Arr1i, x: Arr1) -> Obj('sempler.normal_distribution.NormalDistribution', p=Int, mean=Arr1, covariance=Arr2):
     requires(nd_ok(self), idx_ok(X, self.p), idx_ok(Y, self.p),
              implies(len(X) > 0 and len(X) == len(x), nonsingular(block(self.covariance, X, X))))
@@ -66,7 +67,7 @@ def row(C, y):
     return array_of(C.shape[1], lambda j: C[y, j])
 
 
-@contract("sempler.normal_distribution.NormalDistribution.regress")
+@contract("sempler.normal_distribution.NormalDistribution.regress", self_from_init=True)
 def nd_regress(self: Obj('sempler.normal_distribution.NormalDistribution', p=Int, mean=Arr1, covariance=Arr2), y: Int, Xs: Arr1i) -> Tup(Arr1, Real):
     requires(nd_ok(self), 0 <= y and y < self.p, idx_ok(Xs, self.p), distinct(Xs),
              implies(len(Xs) > 0, nonsingular(block(self.covariance, Xs, Xs))))
@@ -79,7 +80,7 @@ def nd_regress(self: Obj('sempler.normal_distribution.NormalDistribution', p=Int
     fresh(result)
 
 
-@contract("sempler.normal_distribution.NormalDistribution.mse")
+@contract("sempler.normal_distribution.NormalDistribution.mse", self_from_init=True)
 def nd_mse(self: Obj('sempler.normal_distribution.NormalDistribution', p=Int, mean=Arr1, covariance=Arr2), y: Int, Xs: Arr1i) -> Real:
     requires(nd_ok(self), 0 <= y and y < self.p, idx_ok(Xs, self.p), distinct(Xs),
              implies(len(Xs) > 0, nonsingular(block(self.covariance, Xs, Xs))))
@@ -89,7 +90,7 @@ def nd_mse(self: Obj('sempler.normal_distribution.NormalDistribution', p=Int, me
             - matmul(2 * row(self.covariance, y), ls_coefs(self.covariance, y, Xs)))
 
 
-@contract("sempler.normal_distribution.NormalDistribution.sample", cases={'random_state': ['none', 'int']})
+@contract("sempler.normal_distribution.NormalDistribution.sample", cases={'random_state': ['none', 'int']}, self_from_init=True)
 def nd_sample(self: Obj('sempler.normal_distribution.NormalDistribution', p=Int, mean=Arr1, covariance=Arr2), n: Int) -> Arr2:
     requires(nd_ok(self), n >= 0)
     # exactly numpy's multivariate normal with the stored parameters, drawn from the global generator (reseeded when a seed is given)
